@@ -616,7 +616,7 @@ struct WkdScenario : Scenario {
         int n = kind == 0 ? l : (l > 1 ? l - 1 : l);
         WireLayout L = wk_layout(kind + 1, comp != 0, sig != 0, n);
         size_t ne = 0; for (auto& e : L.elems) if (e.g) ne++;
-        std::vector<std::string> kinds = invalid_kinds(); kinds.push_back("other");
+        std::vector<std::string> kinds = invalid_kinds(); kinds.push_back("other"); kinds.push_back("infinity");
         for (size_t e = 0; e < ne; e++) for (auto& k : kinds) p.ops.push_back({"HOP", {kind, 0, comp, checked}, {strf("elem:%zu:%s:%llu", e, k.c_str(), (unsigned long long) (r.next() >> 8))}});
         for (size_t n2 = 1; n2 < L.total; n2 += (size_t) stride) p.ops.push_back({"HOP", {kind, 0, comp, checked}, {strf("trunc:%zu", n2)}});
         for (size_t n2 = 1; n2 <= 64; n2 += (size_t) stride) p.ops.push_back({"HOP", {kind, 0, comp, checked}, {strf("ext:%zu:%d", n2, (int) r.below(256))}});
